@@ -88,7 +88,8 @@ def _install_io(results, captured):
     import pandas as pd
     old = (pt.gzip, pt.pickle, pt.get_clone_table, pt._create_results_output_files, pt.print_string_to_file)
     pt.gzip, pt.pickle = FakeGzMod, FakePickle
-    pt.get_clone_table = lambda data, samples, tree, clusters=None: pd.DataFrame([{"tree": tree_key(tree)}])
+    pt.get_clone_table = lambda data, samples, tree, clusters=None: pd.DataFrame(
+        [{"mutation_id": i, "clone_id": c} for i, c in sorted(tree.labels.items())])
     pt._create_results_output_files = lambda a, b, table, tree: captured.update(map_tree=tree)
     pt.print_string_to_file = lambda s, f: open(f, "w").write(s + "\n")
     old_print = getattr(pt, "print", None)
@@ -103,7 +104,7 @@ def _install_io(results, captured):
     return undo
 
 
-def build_results(skel, dps, trees, score):
+def build_results(skel, dps, trees, score, forests=None):
     """score(chain, idx) -> recorded log_p_one of that entry.  Returns (results dict in insertion order, flat entry list)."""
     shape, assign, order = skel
     chains = {}
@@ -117,7 +118,12 @@ def build_results(skel, dps, trees, score):
             pos += 1
             t = trees[fi].copy()
             if seen.get(fi):
-                t.relabel_nodes()          # a relabelled copy of the same tree
+                if forests is not None:
+                    # the same tree recorded again with its siblings stored in the other order: after the run loop's
+                    # relabel_nodes() its clone numbers differ from the first recording's
+                    from vsym.histories import build_create
+                    t = build_create(forests[fi], dps, (1, 2), reverse=True)
+                t.relabel_nodes()
             seen[fi] = True
             e = {"iter": i * 3, "alpha": 1.0, "log_p_one": score(c, i), "tree": t.to_dict(), "time": 0.0}
             tr.append(e)
@@ -161,10 +167,62 @@ def run_commands(results, top_trees):
                 pd.DataFrame.to_csv = orig_to_csv
             with tarfile.open(arch, "r:gz") as tf:
                 out["archive"] = sorted(tf.getnames())
+                out["archive_clades"] = {}
+                for nm in tf.getnames():
+                    if nm.endswith(".nwk"):
+                        tid = nm.split("/")[0]
+                        nwk = tf.extractfile(nm).read().decode().strip()
+                        tab = pd.read_csv(tf.extractfile(f"{tid}/{tid}_results_table.tsv"), sep="\t")
+                        out["archive_clades"][tid] = clades_from_files(nwk, tab)
         out["df"] = rows["df"]
     finally:
         undo()
     return out
+
+
+def clades_from_files(newick, table):
+    """clades implied by a Newick string (node names) together with a table mutation -> clone id; None if inconsistent"""
+    children = {}
+    stack = [[]]
+    tok = ""
+    s_ = newick.strip().rstrip(";")
+    i = 0
+    # "(a,(b)c)root" : a node's name follows its closing parenthesis
+    def close_name(j):
+        k = j
+        while k < len(s_) and s_[k] not in ",()":
+            k += 1
+        return s_[j:k], k
+    pos = 0
+    def parse(pos):
+        kids = []
+        if s_[pos] == "(":
+            pos += 1
+            while True:
+                name, sub, pos = parse(pos)
+                kids.append(name)
+                if s_[pos] == ",":
+                    pos += 1
+                    continue
+                if s_[pos] == ")":
+                    pos += 1
+                    break
+        name, pos = close_name(pos)
+        children[name] = kids
+        return name, kids, pos
+    root, _, _ = parse(0)
+    own = {}
+    for _, r in table.iterrows():
+        own.setdefault(str(int(r["clone_id"])), set()).add(int(r["mutation_id"]))
+    if not set(own) - {"-1"} <= set(children):
+        return None
+
+    def clade(n):
+        s0 = set(own.get(n, set()))
+        for c in children.get(n, []):
+            s0 |= clade(c)
+        return frozenset(s0)
+    return frozenset(clade(n) for n in children if n != root), frozenset(own.get("-1", set()))
 
 
 def _ev(x):
@@ -258,6 +316,12 @@ def work(job):
         got = [n for n in out["archive"]]
         if not must(sorted(set(got) - {f"t_{i}" for i in range(len(df))}) == sorted(w for w in want if "/" in w), "archive-contents", detail=str(got)):
             return False
+        for tid, cl in out["archive_clades"].items():
+            row = df[df["topology_id"] == tid]
+            fi = [f for f in by_forest if _same_topology(row["topology"].iloc[0], trees[f])]
+            ok = cl is not None and any(cl == keys[f] for f in fi)
+            if not must(ok, "archive-table-and-newick-disagree", detail=str(cl)):
+                return False
         return True
 
     def run():
@@ -270,7 +334,7 @@ def work(job):
             state = {}
 
             def one():
-                results, flat = build_results(skel, dps, trees, lambda c, i: Log(V.var(f"l{c}_{i}")))
+                results, flat = build_results(skel, dps, trees, lambda c, i: Log(V.var(f"l{c}_{i}")), forests=fs)
                 state["flat"] = flat
                 return run_commands(results, top_trees)
             paths = CTX.explore(one, catch=(Exception,))
@@ -323,7 +387,7 @@ def replay(case):
     dps = [float_dp(i, 1, 2, {}) for i in range(2)]
     fs = [f for f in all_forests(2, outliers=False)][:3]
     trees = [f.to_tree(dps, (1, 2)) for f in fs]
-    results, flat = build_results(skel, dps, trees, lambda c, i: math.log(vals.get(f"l{c}_{i}", 1.0)))
+    results, flat = build_results(skel, dps, trees, lambda c, i: math.log(vals.get(f"l{c}_{i}", 1.0)), forests=fs)
     top_trees = 1 if len(set(skel[1])) > 1 else 5
     try:
         out = run_commands(results, top_trees)
@@ -361,6 +425,11 @@ def replay(case):
     got = sorted(n for n in out["archive"] if "/" in n)
     if got != want:
         return True, {"archive": got, "want": want}
+    for tid, cl in out["archive_clades"].items():
+        row = df[df["topology_id"] == tid]
+        fi = [f for f in by_forest if _same_topology(row["topology"].iloc[0], trees[f])]
+        if cl is None or not any(cl == keys[f] for f in fi):
+            return True, {"archive-table-and-newick-disagree": tid}
     return False, "all summary assertions hold"
 
 
